@@ -43,3 +43,4 @@ for i in ids:
         man["not_applicable"].append({"property_id": i, "reason": meta["na_reason"]})
 json.dump(man, open(os.path.join(VERIF, "MANIFEST.json"), "w"), indent=1)
 print("claimed:", [c["property_id"] for c in man["checks"]])
+import subprocess; subprocess.call(["python3", os.path.join(VERIF, "vp", "mkcoverage.py")])
